@@ -2117,6 +2117,7 @@ def app_project_runner__ProjectRunner_runProcess : List String := [
   "procLog = pclog.NewLogBuffer(0)",
   "}",
   "procState, _ := p.GetProcessState(config.ReplicaName)",
+  "replicaName := config.ReplicaName",
   "isMain := config.Name == p.mainProcess",
   "hasMain := p.mainProcess != \"\"",
   "printLogs := !hasMain && !p.isTuiOn",
@@ -2128,7 +2129,7 @@ def app_project_runner__ProjectRunner_runProcess : List String := [
   "process := NewProcess(withTuiOn(p.isTuiOn), withGlobalEnv(p.project.Environment), withLogger(procLogger), withProcConf(config), withProcState(procState), withProcLog(procLog), withShellConfig(*p.project.ShellConfig), withPrintLogs(printLogs), withIsMain(isMain), withExtraArgs(extraArgs))",
   "process.setState(types.ProcessStatePending)",
   "p.addRunningProcess(process)",
-  "p.removeDoneProcess(config.ReplicaName)",
+  "p.removeDoneProcess(replicaName)",
   "p.waitGroup.Add(1)",
   "go func(proc *Process) {",
   "defer p.removeRunningProcess(proc)",
